@@ -44,3 +44,12 @@ CHECKS['C14'] = dict(
          '(values of those types carry no aliases); calls that the typed resolution cannot resolve fall back to class-hierarchy analysis '
          'on the method name, an unresolved call on an analysed path ends the run with exit 2.',
 )
+
+CHECKS['C16'] = dict(
+    category='other',
+    technique='effect analysis on the codec entry points + affine inverse-map check of the octave codec + character-map extraction for the accidental alphabets',
+    text='Decides that export_pitch/import_pitch never write through their argument, that importer and exporter octave formulas are inverse '
+         'affine maps with one threshold and agreeing constants, and that the accidental alphabets are inverse character maps, for every '
+         'spelling with homogeneous accidentals.',
+    note='Trusted: Python str semantics (replace, join, lower/upper, repetition). Mixed accidental runs are outside the quantified domain.',
+)
